@@ -3,7 +3,7 @@ import itertools
 import json
 import re
 
-from ..util import diff, run_ddl, short, first_diff_path, _at, snippet as _snip
+from ..util import entities, diff, run_ddl, short, first_diff_path, _at, snippet as _snip
 
 ID = "C07"
 LEVEL = "exploration"
@@ -242,7 +242,10 @@ def evaluate(case):
         diffs.append(diff("run", "raises:" + r[1], "result", r[2]))
     elif r[1] != want:
         got = r[1]
-        if len(got) != len(want):
+        if len(entities(got)) < len(entities(want)):
+            # (since lexer errors honour silent=True a statement that used to raise is now skipped; a comments entity may take its place)
+            diffs.append(diff("result", "statement-lost", short(want, 200), short(got, 200)))
+        elif len(got) != len(want):
             diffs.append(diff("result", "statement-lost" if len(got) < len(want) else "entity-added", short(want, 200), short(got, 200)))
         else:
             # walk every differing leaf
